@@ -307,6 +307,42 @@ pub fn c14(tier: Tier, seed: u64) -> Verdict {
         });
         merged.merge(m);
     }
+    // (2b) digit patterns: a random prefix followed by a run of nines or zeros (values a digit-at-a-time or
+    // chunked writer treats specially), and neighbours
+    if merged.violation.is_none() {
+        let per_shard = tier.pick(400_000, 4_000_000);
+        let strat = || (0usize..24, any::<u128>(), 0u32..=38, any::<bool>(), -1i8..=1, any::<bool>()).boxed();
+        let m = run_sharded("C14", seed, 3, per_shard, strat, |&(t, raw, run, nines, d, neg), _cur| {
+            let mut st = CaseStats::default();
+            let (min, max) = int_range(t);
+            let neg = neg && min != 0;
+            let lim = if neg { min.unsigned_abs() } else { max };
+            let max_digits = lim.to_string().len() as u32;
+            let run = run % max_digits;
+            let pow = 10u128.pow(run);
+            // prefix chosen so that the value stays inside the type
+            let prefix_lim = lim / pow;
+            let prefix = if prefix_lim == 0 { 0 } else { raw % prefix_lim.saturating_add(1) };
+            let base = prefix.saturating_mul(pow);
+            let mag = if nines { base.saturating_add(pow - 1) } else { base };
+            let mag = mag.saturating_add_signed(d as i128).min(lim);
+            begin();
+            let r = check_int_value(t, neg, mag);
+            end();
+            match r {
+                None => (st, None),
+                Some(Err(e)) => (st, Some(int_violation(t, neg, mag, e))),
+                Some(Ok(())) => {
+                    st.evaluations = 1;
+                    if run >= 4 {
+                        st.nontrivial.push(digest(&(t, neg, mag)));
+                    }
+                    (st, None)
+                }
+            }
+        });
+        merged.merge(m);
+    }
     // (3) thorough: exhaustive 32-bit types
     if merged.violation.is_none() && tier == Tier::Thorough {
         let m = run_parallel(|shard| {
@@ -443,6 +479,58 @@ fn check_pieces(d: &Pieces) -> Result<(), String> {
         (Ok(_), Err(_)) => Err("to_lean_string panicked, to_string did not".into()),
         (Err(_), Ok(y)) => Err(format!("to_string panics on the failing Display, to_lean_string returned {:?}", y.as_str())),
     }
+}
+
+/// Display impls with interior state: `to_string()` calls `fmt` exactly once, so a conversion that formats twice
+/// (e.g. to measure first) prints something else.
+fn check_impure_display(n: u32) -> Result<(), String> {
+    use std::cell::{Cell, RefCell};
+    struct Counter(Cell<u32>, u32);
+    impl std::fmt::Display for Counter {
+        fn fmt(&self, f: &mut std::fmt::Formatter<'_>) -> std::fmt::Result {
+            let k = self.0.get();
+            self.0.set(k + 1);
+            write!(f, "rendering #{} of value {}", k + 1, self.1)
+        }
+    }
+    struct Drain(RefCell<std::vec::IntoIter<u32>>);
+    impl std::fmt::Display for Drain {
+        fn fmt(&self, f: &mut std::fmt::Formatter<'_>) -> std::fmt::Result {
+            for (i, x) in self.0.borrow_mut().by_ref().enumerate() {
+                if i > 0 {
+                    f.write_str(", ")?;
+                }
+                write!(f, "{x}")?;
+            }
+            Ok(())
+        }
+    }
+    struct FailSecond(Cell<bool>);
+    impl std::fmt::Display for FailSecond {
+        fn fmt(&self, f: &mut std::fmt::Formatter<'_>) -> std::fmt::Result {
+            if self.0.replace(true) {
+                return Err(std::fmt::Error);
+            }
+            f.write_str("first and only rendering, longer than sixteen bytes")
+        }
+    }
+    guard(|| {
+        let want = Counter(Cell::new(0), n).to_string();
+        let got = Counter(Cell::new(0), n).to_lean_string();
+        if got != want {
+            return Err(format!("a Display impl that counts its calls: to_lean_string gives {:?}, to_string {want:?}", got.as_str()));
+        }
+        let items: Vec<u32> = (0..n % 40).collect();
+        let want = Drain(RefCell::new(items.clone().into_iter())).to_string();
+        let got = Drain(RefCell::new(items.into_iter())).to_lean_string();
+        if got != want {
+            return Err(format!("a draining Display impl: to_lean_string gives {:?}, to_string {want:?}", got.as_str()));
+        }
+        match FailSecond(Cell::new(false)).try_to_lean_string() {
+            Ok(s) if s == "first and only rendering, longer than sixteen bytes" => Ok(()),
+            other => Err(format!("a Display impl that fails when formatted a second time: {other:?}")),
+        }
+    })
 }
 
 fn c15_violation(case: Value, detail: String) -> Violation {
@@ -646,6 +734,9 @@ pub fn c15(tier: Tier, seed: u64) -> Verdict {
             let clean = heap_clean();
             end();
             let case = json!({"kind": "value", "domain": "pieces", "v": serde_json::to_value(d).unwrap()});
+            if let Err(x) = check_impure_display(d.pieces.iter().map(|p| p.len() as u32).sum()) {
+                return (st, Some(Violation { case: json!({"kind": "value", "domain": "impure_display", "v": d.pieces.len()}), clause: "C15.to_lean_string".into(), step: 0, detail: x }));
+            }
             if let Err(x) = r {
                 let clause = if d.err_at.is_some() { "C15.fmt_error" } else { "C15.to_lean_string" };
                 return (st, Some(Violation { case, clause: clause.into(), step: 0, detail: x }));
@@ -700,7 +791,16 @@ pub const BYTE_ALPHA_MIN: [u8; 15] = [0x41, 0x80, 0x8f, 0x90, 0x9f, 0xa0, 0xbf, 
 pub const U16_ALPHA: [u16; 12] = [0x0041, 0x00e9, 0x07ff, 0x0800, 0xd7ff, 0xd800, 0xdbff, 0xdc00, 0xdfff, 0xe000, 0xfffd, 0xffff];
 
 pub fn check_utf8(b: &[u8]) -> Result<(), String> {
-    guard(|| check_utf8_inner(b))
+    guard(|| check_utf8_inner(b))?;
+    if b.len() >= 16 {
+        // the same bytes at other alignments of the slice
+        let mut buf: Vec<u8> = vec![b'p'; 7];
+        buf.extend_from_slice(b);
+        for k in [1usize, 3, 4] {
+            guard(|| check_utf8_inner(&buf[k..]))?;
+        }
+    }
+    Ok(())
 }
 
 fn check_utf8_inner(b: &[u8]) -> Result<(), String> {
@@ -730,7 +830,17 @@ fn check_utf8_inner(b: &[u8]) -> Result<(), String> {
 }
 
 pub fn check_utf16(u: &[u16]) -> Result<(), String> {
-    guard(|| check_utf16_inner(u))
+    guard(|| check_utf16_inner(u))?;
+    // the same units at every alignment of the slice within an 8-byte word
+    if u.len() >= 4 {
+        let mut buf: Vec<u16> = vec![0x55; 3];
+        buf.extend_from_slice(u);
+        for k in 0..3 {
+            guard(|| check_utf16_inner(&buf[3 - k..]).map_err(|e| format!("(slice starting {} units before the data, i.e. at another alignment) {e}", k)))?;
+            buf[2 - k.min(2)] = *u.first().unwrap_or(&0x41);
+        }
+    }
+    Ok(())
 }
 
 fn check_utf16_inner(u: &[u16]) -> Result<(), String> {
@@ -787,15 +897,34 @@ pub fn c16(tier: Tier, seed: u64) -> Verdict {
         let mut m = Merged::new();
         begin();
         let mut buf: Vec<u8> = Vec::new();
+        let mut cur = CurrentFile::open("C16", shard);
         'a: for (alpha, len) in &byte_plan {
             let total = (alpha.len() as u64).pow(*len as u32);
             let mut i = shard as u64;
             while i < total {
+                if (i / SHARDS as u64) % 4096 == 0 {
+                    // a crash inside this stretch is found again by replaying the recorded range
+                    cur.record(&json!({"kind": "bytes_range", "alpha": alpha.len(), "len": len, "from": i, "to": (i + 4096 * SHARDS as u64).min(total), "stride": SHARDS}));
+                }
                 nth_seq(alpha, *len, i, &mut buf);
                 m.evaluations += 1;
                 if let Err(d) = check_utf8(&buf) {
                     m.violation = Some(c16_violation(json!({"kind": "bytes", "hex": hex_encode(&buf)}), d));
                     break 'a;
+                }
+                // the same bytes placed at the very end of texts of 8, 15, 16, 17, 24 and 32 bytes (ASCII in front)
+                if *len >= 1 && (*len <= 3 || i % 11 == 0) {
+                    for total in [8usize, 15, 16, 17, 24, 32] {
+                        if *len <= total {
+                            let mut t: Vec<u8> = std::iter::repeat_n(b'q', total - *len).collect();
+                            t.extend_from_slice(&buf);
+                            m.evaluations += 1;
+                            if let Err(d) = check_utf8(&t) {
+                                m.violation = Some(c16_violation(json!({"kind": "bytes", "hex": hex_encode(&t)}), d));
+                                break 'a;
+                            }
+                        }
+                    }
                 }
                 // the same bytes embedded so that the text crosses the inline limit
                 if *len >= 2 && i % 7 == 0 {
@@ -816,6 +945,7 @@ pub fn c16(tier: Tier, seed: u64) -> Verdict {
             }
             *m.counters.entry(format!("bytes_exhaustive_len{}_alpha{}", len, alpha.len())).or_insert(0) += 1;
         }
+        cur.clear();
         let mut ub: Vec<u16> = Vec::new();
         if m.violation.is_none() {
             'b: for len in 0..=u16_max {
@@ -997,12 +1127,49 @@ pub fn fuzz_decode_case(data: &[u8]) -> Result<(), String> {
     }
 }
 
+/// every input derived from sequence number `i` in the exhaustive byte enumeration (the sequence itself, placed at
+/// the end of fixed-length texts, embedded behind a prefix)
+fn bytes_inputs_of(alpha: &[u8], len: usize, i: u64) -> Vec<Vec<u8>> {
+    let mut buf = Vec::new();
+    nth_seq(alpha, len, i, &mut buf);
+    let mut out = vec![buf.clone()];
+    if len >= 1 {
+        for total in [8usize, 15, 16, 17, 24, 32] {
+            if len <= total {
+                let mut t: Vec<u8> = std::iter::repeat_n(b'q', total - len).collect();
+                t.extend_from_slice(&buf);
+                out.push(t);
+            }
+        }
+    }
+    let mut long = b"0123456789abcd".to_vec();
+    long.extend_from_slice(&buf);
+    long.extend_from_slice(b"tail");
+    out.push(long);
+    out
+}
+
 /// replay of value-domain cases
 pub fn replay_value(case: &Value) -> Option<Vec<(usize, String, String)>> {
     let kind = case.get("kind")?.as_str()?;
     let mut out = Vec::new();
     begin();
     match kind {
+        "bytes_range" => {
+            let alpha: &[u8] = if case.get("alpha")?.as_u64()? == 15 { &BYTE_ALPHA_MIN } else { &BYTE_ALPHA };
+            let len = case.get("len")?.as_u64()? as usize;
+            let (from, to, stride) = (case.get("from")?.as_u64()?, case.get("to")?.as_u64()?, case.get("stride")?.as_u64()?.max(1));
+            let mut i = from;
+            'r: while i < to {
+                for b in bytes_inputs_of(alpha, len, i) {
+                    if let Err(d) = check_utf8(&b) {
+                        out.push((0, "C16.decode".to_string(), d));
+                        break 'r;
+                    }
+                }
+                i += stride;
+            }
+        }
         "bytes" => {
             let b = hex_decode(case.get("hex")?.as_str()?);
             if let Err(d) = check_utf8(&b) {
@@ -1052,6 +1219,11 @@ pub fn replay_value(case: &Value) -> Option<Vec<(usize, String, String)>> {
             "text" => {
                 if let Err(d) = check_text_routes(case.get("v")?.as_str()?) {
                     out.push((0, "C15.to_lean_string".to_string(), d));
+                }
+            }
+            "impure_display" => {
+                if let Err(x) = check_impure_display(case.get("v")?.as_u64()? as u32) {
+                    out.push((0, "C15.to_lean_string".to_string(), x));
                 }
             }
             "pieces" => {
